@@ -122,6 +122,9 @@ func (sc *DecArshal) plan(t *core.Tape, env *Env) *DecArshalPlan {
 	p.AllowUTF8 = ps.Chance(1, 5)
 	p.AllowDup = ps.Chance(1, 5)
 	p.Route = []string{"read", "decode"}[ps.Draw(2)]
+	if sc.Mode == "c05" && ps.Chance(1, 8) {
+		p.Route = "v1stream"
+	}
 	p.Target = ps.Draw(len(decTargets))
 	p.TargetName = decTargets[p.Target].Name
 	p.Legacy = sc.Mode != "c03" && ps.Chance(1, 5)
@@ -314,6 +317,52 @@ func (sc *DecArshal) Run(t *core.Tape, env *Env) (any, []core.Violation) {
 	tap := &core.Tap{R: src}
 
 	switch p.Route {
+	case "v1stream":
+		// the v1 stream Decoder is a wrapper over jsontext.Decoder: the same
+		// chunk-independence must hold for Decode/More/InputOffset
+		type v1step struct {
+			val  string
+			err  string
+			off  int64
+			more bool
+		}
+		runV1 := func(r io.Reader) []v1step {
+			d := jsonv1.NewDecoder(r)
+			var steps []v1step
+			for k := 0; k < 40; k++ {
+				x := tgt.New()
+				err := d.Decode(x)
+				stp := v1step{off: d.InputOffset(), more: err == nil && d.More()}
+				if err != nil {
+					stp.err = reflect.TypeOf(err).String()
+					if errors.Is(err, core.ErrInjected) {
+						stp.err = "injected"
+					}
+				} else {
+					stp.val = renderAny(x)
+				}
+				steps = append(steps, stp)
+				if err != nil {
+					break
+				}
+			}
+			return steps
+		}
+		p.Read.FaultAt, p.Read.Events = nil, nil // no retry promise documented for the v1 Decoder
+		sim = core.NewSimReader(in, p.Read)
+		got := runV1(sim)
+		want := runV1(bytes.NewReader(append([]byte(nil), in...)))
+		st.Steps += int64(len(got))
+		if len(got) != len(want) {
+			report("C05", "C05/v1-decoder-stream-vs-whole/length", tgt.Name, "chunked: %d Decode calls until the end, whole: %d; input=%s", len(got), len(want), clip(in, 200))
+		} else {
+			for k := range got {
+				if got[k] != want[k] {
+					report("C05", "C05/v1-decoder-stream-vs-whole", tgt.Name, "Decode #%d: chunked %+v ; whole %+v ; input=%s", k, got[k], want[k], clip(in, 200))
+					break
+				}
+			}
+		}
 	case "bbreuse":
 		// a caller-owned bytes.Buffer used for one message, Reset, refilled with
 		// the text under test; an unrelated streaming call runs in between
